@@ -19,15 +19,17 @@ META = {
     "re-checked by decide; differential correspondence hex-for-hex with a Lean BLAKE2b",
     "text": "Lean theorems for values of any size and depth, with the digest function H an arbitrary function that returns "
     "16 bytes: (order) two values with the same content whose sets were iterated and whose dicts were filled in any other "
-    "order get the same hash, provided every set's elements and every dict's keys are drawn from one class that Python's < "
-    "orders totally (C08_order_indep; C08_sorted_perm: sorted() of a permutation is the same list); (discrimination) equal "
+    "order get the same hash — unconditionally for sets and frozensets, which are ordered by the digests of their elements, "
+    "and for dicts provided the keys are drawn from one class that Python's < orders totally "
+    "(C08_order_indep; C08_sorted_perm: sorted() of a permutation is the same list); (discrimination) equal "
     "hashes of two values of the grammar G0 imply that the values have the same type and content up to set/dict order, "
     "or else exhibit two different byte strings among their sub-encodings with the same H-image (C08_discriminates); "
     "(context) hash_single with its id-keyed memo returns, for every value without reference cycles whose live objects "
     "have unique ids, the hash the value gets alone, whatever was hashed before in the same Cache (C08_context_free).  "
-    "Witness theorems for what the tree does not satisfy: sets of sets are ordered by proper subset, a partial order "
-    "(C08_witness_partial_order, D6); a member of a reference cycle hashed after another member gets another hash "
-    "(C08_witness_cycle, D61).  The tag literals come from pydra/utils/hash.py on every run "
+    "Witness theorem for what the tree does not satisfy: a member of a reference cycle hashed after another member gets "
+    "another hash (C08_witness_cycle, D66).  Repaired defect D6 (sets ordered by value): regression theorems "
+    "C08_regression_set_of_sets / C08_regression_unorderable_set, the old algorithm is documented by C08_old_sorted_by_value.  "
+    "The tag literals come from pydra/utils/hash.py on every run "
     "(Gen/HashLits.lean; heads_prefix_free / len_seps_ok / words_ok / sources_ok are closed by decide).  The model is tied to the code by hashing generated "
     "values and near-miss pairs with the real hash_function and with the model instantiated with a Lean BLAKE2b "
     "(itself compared with hashlib on every run).",
@@ -65,7 +67,9 @@ OBLIGATIONS = [
         "C08_context_free",
         "C08_context_free_seq",
         "C08_hashFunction_pure",
-        "C08_witness_partial_order",
+        "C08_regression_set_of_sets",
+        "C08_regression_unorderable_set",
+        "C08_old_sorted_by_value",
         "C08_witness_cycle",
         "heads_prefix_free",
         "len_seps_ok",
@@ -105,12 +109,6 @@ def _strip(s, fn):
     return go(s)
 
 
-def _pep585(n):
-    if n["k"] == "type" and n["v"] in H.PEP585_EXPRS:
-        return "<pep585:" + n["v"].split("[")[0] + ">"
-    return None
-
-
 def _lambda(n):
     if n["k"] == "func" and n.get("lambda"):
         return "<lambda>"
@@ -122,19 +120,16 @@ def defect_of_pair(a, b, ha, hb, same_expected) -> str | None:
     ua, ub = H.unordered_elements(a), H.unordered_elements(b)
     errs = [h for h in (ha, hb) if h.startswith("!")]
     if errs:
-        # only the TypeError raised by sorted() on elements that < does not compare is D6
+        # only the TypeError raised by sorted(mapping) on dict keys that < does not compare is D68
         for u, h in ((ua, ha), (ub, hb)):
             if h.startswith("!") and not (h == "!TypeError" and u == "typeerror"):
                 return None
-        return "D6"
+        return "D68"
     if same_expected:
-        # equal content, different hashes: D6 when a set of sets is involved on either side
-        return "D6" if "partial" in (ua, ub) else None
+        return None  # equal content, different hashes: nothing listed explains that
     # different content, equal hashes
-    if H.canon_key(_strip(a, _pep585)) == H.canon_key(_strip(b, _pep585)):
-        return "D60"
     if H.canon_key(_strip(a, _lambda)) == H.canon_key(_strip(b, _lambda)):
-        return "D62"
+        return "D67"
     return None
 
 
@@ -180,10 +175,8 @@ def run_pairs(ctx, pairs: list[dict], moddir: Path):
         assert same_content == bool(p["same"]), f"generator/oracle disagree on {p}"
         ok = not ha.startswith("!") and not hb.startswith("!")
         ok = ok and ((ha == hb) == same_content)
-        # deterministic; rebuilt equal value hashes equally (sets of sets excepted: D6 may strike inside one process too)
-        ok = ok and again == ha
-        if rebuilt != ha and not (H.unordered_elements(p["a"]) == "partial"):
-            ok = False
+        # deterministic; a separately rebuilt equal value hashes equally
+        ok = ok and again == ha and rebuilt == ha
         defect = None if ok else defect_of_pair(p["a"], p["b"], ha, hb, same_content)
         ctx.count("aspect:" + p["aspect"].split(":")[0])
         ctx.count("pair:same" if same_content else "pair:near-miss")
@@ -202,8 +195,8 @@ def run_pairs(ctx, pairs: list[dict], moddir: Path):
 
 
 def defect_of_ctx(case) -> str | None:
-    """D61: the value lies on a reference cycle and another member of that cycle was hashed before it."""
-    return "D61" if any(H.has_cycle(c) for c in case["ctx"]) or H.has_cycle(case["v"]) else None
+    """D66: the value lies on a reference cycle and another member of that cycle was hashed before it."""
+    return "D66" if any(H.has_cycle(c) for c in case["ctx"]) or H.has_cycle(case["v"]) else None
 
 
 def run_ctx(ctx, cases: list[dict], moddir: Path):
@@ -284,9 +277,10 @@ def _defined_names(s):
     return [n["name"] for n in H.walk(s) if n["k"] == "def" or n.get("name")]
 
 
-def in_process_d6_witness():
+def in_process_set_order_pair():
     """Two equal frozensets of frozensets whose iteration orders differ inside ONE process (slot collision), found
-    by search over small int frozensets (their hashes do not depend on PYTHONHASHSEED)."""
+    by search over small int frozensets (their hashes do not depend on PYTHONHASHSEED).  Before fix 847ae56e (D6) their
+    hashes differed."""
     fs = [frozenset([i, j]) for i in range(12) for j in range(i + 1, 12)]
     for x in fs:
         for y in fs:
@@ -323,12 +317,14 @@ def correspondence(ctx):
         seq, alone = H.impl_hash_ctx(objs + [v]), H.impl_hash(v)
         if r.get("finding"):
             status.setdefault(r["finding"], []).append((seq[-1] != alone, f"{r['name']}: in context {seq[-1]}, alone {alone}"))
-    w = in_process_d6_witness()
+    w = in_process_set_order_pair()
     d6_pair = None
     if w is not None:
+        # regression for the repaired D6: two equal frozensets of frozensets with DIFFERENT iteration orders in this process
         h1, h2 = H.impl_hash(w[0]), H.impl_hash(w[1])
-        status.setdefault("D6", []).append((h1 != h2, f"frozenset([{set(list(w[0])[0])},{set(list(w[0])[1])}]) built in both orders: {h1} / {h2}"))
-        ctx.extra["d6_in_process_witness"] = {"order1": [sorted(x) for x in w[0]], "order2": [sorted(x) for x in w[1]], "hashes": [h1, h2]}
+        ctx.extra["d6_in_process_regression"] = {"order1": [sorted(x) for x in w[0]], "order2": [sorted(x) for x in w[1]], "hashes": [h1, h2]}
+        if h1 != h2:
+            ctx.notes.append("fixed defect D6 fails again: frozenset of frozensets hashes by iteration order")
 
         def fs(s):
             return {"k": "frozenset", "xs": [{"k": "int", "v": str(i)} for i in sorted(s)]}
@@ -351,13 +347,15 @@ def correspondence(ctx):
     n_pairs, n_ctx = ctx.pick(150, 2500), ctx.pick(40, 600)
     batch = 400
     todo = [gen_pair(ctx.rng) for _ in range(n_pairs)]
-    # D60 / D62 / D6 regions are visited on purpose in a small share of the cases
+    # regressions of D6 / D65 and the D68 region are visited on purpose in a small share of the cases
     for _ in range(ctx.pick(6, 60)):
         a, b = ctx.rng.sample(H.PEP585_EXPRS, 2)
         todo.append({"a": {"k": "list", "xs": [{"k": "type", "v": a}]}, "b": {"k": "list", "xs": [{"k": "type", "v": b}]}, "same": False, "aspect": "type-expr"})
         k1, k2 = ctx.rng.sample(["str", "int", "bytes"], 2)
-        xs = [H.gen_key(ctx.rng, k1), H.gen_key(ctx.rng, k2)]
+        xs = [H.gen_key(ctx.rng, k1), H.gen_key(ctx.rng, k2), {"k": "none"}]
         todo.append({"a": {"k": "set", "xs": xs}, "b": {"k": "set", "xs": xs[::-1]}, "same": True, "aspect": "same:set-build-order"})
+        items = [[H.gen_key(ctx.rng, k1), {"k": "int", "v": "1"}], [H.gen_key(ctx.rng, k2), {"k": "int", "v": "2"}]]
+        todo.append({"a": {"k": "dict", "items": items}, "b": {"k": "dict", "items": items[::-1]}, "same": True, "aspect": "same:dict-insertion-order"})
     for i in range(0, len(todo), batch):
         run_pairs(ctx, todo[i : i + batch], moddir)
     cs = [gen_ctx(ctx.rng) for _ in range(n_ctx)]
